@@ -206,6 +206,8 @@ def py_property(row, wyck, key="api"):
                 f["in_plane_distance"] = float(inplane)
                 f["offset_only_along_nonperiodic_axis"] = bool(inplane <= tol)
             fails.append(f)
+    if key == "api" and row.get("flag_unstable"):
+        fails.append({"clause": "has-free-parameters-flag", "flag": "changed between two calls on one analyzer", "sg": sg})
     if key == "api":
         carries = any(len(wyck[sg][s["letter"]]["variables"]) > 0 for s in d["sets"] if s["letter"] in wyck[sg])
         if bool(row.get("flag")) != carries:
@@ -336,7 +338,8 @@ def run_impl(crystals, direct="auto"):
         chunk = crystals[k::n]
         if chunk:
             payloads.append({"cases": [{"id": c["id"], "crystal": c["crystal"], "tol": c.get("tol", TOL), "direct": direct,
-                                        "target": (c["crystal"].get("target") or [None, None])[1], "doctor": c.get("doctor")} for c in chunk]})
+                                        "target": (c["crystal"].get("target") or [None, None])[1], "doctor": c.get("doctor"),
+                                        "history": c.get("history")} for c in chunk]})
     outs = C.impl_run_parallel("c08_impl", payloads, jobs=JOBS)
     rows = {}
     for o in outs:
@@ -369,8 +372,8 @@ def shrink(crystal, wyck, still_fails):
     return cur
 
 
-def evaluate_on_impl(crystal, wyck, tol=TOL):
-    rows = run_impl([{"id": 0, "crystal": crystal, "tol": tol}], direct="always")
+def evaluate_on_impl(crystal, wyck, tol=TOL, history=None):
+    rows = run_impl([{"id": 0, "crystal": crystal, "tol": tol, "history": history}], direct="always")
     return rows[0], row_failures(rows[0], wyck)
 
 
@@ -420,11 +423,12 @@ def report_crystal(ctx, crystal, wyck, known, reported, why, tol=TOL, extra=None
     known finding print KNOWN-FINDING (once per key); the first other failure is shrunk and reported.
     Returns 'violation' | 'known' | None (the predicate holds)."""
     if row is None:
-        row, fails = evaluate_on_impl(crystal, wyck, tol)
+        row, fails = evaluate_on_impl(crystal, wyck, tol, (extra or {}).get("analyzer_history"))
     else:
         fails = row_failures(row, wyck)
     if not fails:
         return None
+    hist = row.get("history")
     result = "known"
     for f in fails:
         key = failure_key(f, row, crystal)
@@ -441,16 +445,19 @@ def report_crystal(ctx, crystal, wyck, known, reported, why, tol=TOL, extra=None
 
         def still(c):
             try:
-                r2, f2 = evaluate_on_impl(c, wyck, tol)
+                r2, f2 = evaluate_on_impl(c, wyck, tol, hist)
             except Exception:
                 return False
             return any(g["clause"] == clause and failure_key(g, r2, c) == key for g in f2)
         small = shrink(crystal, wyck, still)
-        row2, fails2 = evaluate_on_impl(small, wyck, tol) if small is not crystal else (row, fails)
+        row2, fails2 = evaluate_on_impl(small, wyck, tol, hist) if small is not crystal else (row, fails)
         reported.add(key)
         rep = {"kind": "property-fails-on-implementation", "key": key, "why": why, "crystal": small, "tol": tol,
                "call": "SymmetryAnalyzer(Atoms(numbers, cell, scaled_positions, pbc), symmetry_tol=tol).get_wyckoff_sets_conventional(return_parameters=True)",
-               "failures": fails2[:6], "implementation": {k2: row2.get(k2) for k2 in ("number", "status", "message", "flag", "letters_original")}}
+               "analyzer_history": hist,
+               "history_meaning": "calls made on the analyzer before the examined ones: 0 none; 1 get_material_id() and get_wyckoff_sets_conventional(False); "
+                                  "2 get_has_free_wyckoff_parameters(), get_wyckoff_sets_conventional(True), get_wyckoff_sets_conventional(False)",
+               "failures": fails2[:6], "implementation": {k2: row2.get(k2) for k2 in ("number", "status", "message", "flag", "flag_unstable", "letters_original")}}
         if extra:
             rep.update(extra)
         ctx.violation(rep, found_input=True, tag=key.replace(":", "-"))
@@ -600,6 +607,32 @@ def run(ctx):
             continue
         crystals.append({"id": cid, "crystal": cr, "tol": TOL, "origin": "pair"})
         cid += 1
+    # flag stream: crystals occupying a parameter-carrying position together with a parameter-FREE position whose letter
+    # sorts after it (so that neither the first nor the last occupied letter decides the has-free-parameters flag), and
+    # the mirror case (only parameter-free positions occupied although the group has later free ones)
+    flag_groups = []
+    for sg in range(1, 231):
+        ls = letters_of(wyck, sg)
+        free = [l for l in ls if wyck[sg][l]["variables"]]
+        fixed = [l for l in ls if not wyck[sg][l]["variables"]]
+        prs = [(a, b) for a in free for b in fixed if b > a]
+        if prs:
+            flag_groups.append((sg, prs))
+    ctx.rng.shuffle(flag_groups)
+    n_flag = 36 if ctx.tier == "quick" else len(flag_groups)
+    fjobs = []
+    for sg, prs in flag_groups[:n_flag]:
+        a, b = prs[ctx.rng.randrange(len(prs))]
+        fjobs.append((sg, a, ctx.rng.getrandbits(48), wyck[sg], max_atoms, [b]))
+    with ProcessPoolExecutor(max_workers=JOBS) as ex:
+        fgen = list(ex.map(gen_pair, fjobs, chunksize=2))
+    n_flag_made = 0
+    for cr, d in fgen:
+        disc += d
+        if cr is not None:
+            crystals.append({"id": cid, "crystal": cr, "tol": TOL, "origin": "flag"})
+            cid += 1
+            n_flag_made += 1
     # random family: 1-3 orbits, <= 120 atoms
     n_family = 40 if ctx.tier == "quick" else 460
     fam_groups = [ctx.rng.randint(1, 230) for _ in range(n_family)] if ctx.tier == "quick" else [1 + (k % 230) for k in range(n_family)]
@@ -689,7 +722,9 @@ def run(ctx):
     ctx.coverage["input_distribution"] = {
         "tier": ctx.tier, "symmetry_tol": TOL, "pairs_requested": len(pairs), "pairs_always_included(first representative with coefficient != 0/1 or moved component)": len(special),
         "pairs_without_crystal": ungenerated[:40], "n_pairs_without_crystal": len(ungenerated), "corpus": [c["file"] for c in corpus],
-        "crystals": len(crystals), "by_origin": {o: sum(1 for c in crystals if c["origin"].startswith(o)) for o in ("corpus", "pair", "family", "2d")},
+        "crystals": len(crystals), "by_origin": {o: sum(1 for c in crystals if c["origin"].startswith(o)) for o in ("corpus", "pair", "flag", "family", "2d")},
+        "flag_stream(free position + later parameter-free position occupied)": {"groups_with_such_a_pair": len(flag_groups), "crystals": n_flag_made},
+        "analyzer_call_history": "crystal id % 3: 0 = parameters asked first; 1 = get_material_id() and get_wyckoff_sets_conventional(False) before; 2 = flag, parameters, no parameters, parameters again (last answer used)",
         "malformed(one class split in two, anchored call)": sum(1 for c in crystals if c.get("doctor")),
         "atoms_min_median_max": [min(sizes), sorted(sizes)[len(sizes) // 2], max(sizes)], "discarded_unstable_or_higher_symmetry": disc,
         "implementation_status": stat, "distinct_pairs_observed": len(observed), "distinct_pairs_with_variables_observed": len(with_vars),
@@ -753,7 +788,7 @@ def replay(ctx, rep):
     if "crystal" not in rep:
         print("replay: no crystal in this replay file (broken obligation: %s)" % (rep.get("broken"),))
         return
-    row, fails = evaluate_on_impl(rep["crystal"], wyck, rep.get("tol", TOL))
+    row, fails = evaluate_on_impl(rep["crystal"], wyck, rep.get("tol", TOL), rep.get("analyzer_history"))
     if fails:
         rep = dict(rep)
         rep["failures_now"] = fails[:6]
